@@ -6,11 +6,13 @@ import (
 	"strings"
 
 	kruiseappsv1alpha1 "github.com/openkruise/kruise-api/apps/v1alpha1"
+	rolloutsv1alpha1 "github.com/openkruise/rollouts/api/v1alpha1"
 	rolloutsv1beta1 "github.com/openkruise/rollouts/api/v1beta1"
 	apps "k8s.io/api/apps/v1"
 	corev1 "k8s.io/api/core/v1"
 	netv1 "k8s.io/api/networking/v1"
 	metav1 "k8s.io/apimachinery/pkg/apis/meta/v1"
+	"k8s.io/apimachinery/pkg/apis/meta/v1/unstructured"
 	"k8s.io/apimachinery/pkg/util/intstr"
 	utilpointer "k8s.io/utils/pointer"
 	"sigs.k8s.io/controller-runtime/pkg/client"
@@ -43,6 +45,9 @@ type Scenario struct {
 	Recreate bool
 	// RollbackInBatch sets the rollouts.kruise.io/rollback-in-batch annotation on the Rollout
 	RollbackInBatch bool
+	// TRCR: traffic is not configured in the Rollout's strategy but by a separate TrafficRouting custom resource
+	// ("tr", weight 20%) that the Rollout references through the rollouts.kruise.io/trafficrouting annotation
+	TRCR bool
 	// Deviation alphabet (user actions) enabled in this scenario.
 	Actions []string
 	NS      string
@@ -51,6 +56,7 @@ type Scenario struct {
 const (
 	DefaultNS = "ns1"
 	AppName   = "demo"
+	TRName    = "tr"
 )
 
 func parseIS(s string) *intstr.IntOrString {
@@ -216,6 +222,28 @@ func (sc *Scenario) Build(w *World) error {
 			return err
 		}
 	}
+	if sc.Traffic == "custom" {
+		if err := w.Raw.Create(ctx, NewVirtualService(ns)); err != nil {
+			return err
+		}
+	}
+	if sc.TRCR {
+		ref := rolloutsv1alpha1.TrafficRoutingRef{Service: AppName, GracePeriodSeconds: sc.Grace}
+		switch sc.Traffic {
+		case "ingress":
+			ref.Ingress = &rolloutsv1alpha1.IngressTrafficRouting{Name: AppName}
+		case "gateway":
+			ref.Gateway = &rolloutsv1alpha1.GatewayTrafficRouting{HTTPRouteName: utilpointer.String(AppName)}
+		case "custom":
+			ref.CustomNetworkRefs = []rolloutsv1alpha1.CustomNetworkRef{{APIVersion: "networking.istio.io/v1alpha3", Kind: "VirtualService", Name: AppName}}
+		}
+		tr := &rolloutsv1alpha1.TrafficRouting{ObjectMeta: metav1.ObjectMeta{Namespace: ns, Name: TRName},
+			Spec: rolloutsv1alpha1.TrafficRoutingSpec{ObjectRef: []rolloutsv1alpha1.TrafficRoutingRef{ref},
+				Strategy: rolloutsv1alpha1.TrafficRoutingStrategy{Weight: utilpointer.Int32(20)}}}
+		if err := w.Raw.Create(ctx, tr); err != nil {
+			return err
+		}
+	}
 	ro := sc.Rollout()
 	if err := w.ValidateRollout(nil, ro); err != nil {
 		return err
@@ -224,6 +252,21 @@ func (sc *Scenario) Build(w *World) error {
 		return err
 	}
 	return nil
+}
+
+// NewVirtualService is the user's Istio VirtualService of the "custom" (Lua) provider scenarios.
+func NewVirtualService(ns string) *unstructured.Unstructured {
+	u := &unstructured.Unstructured{Object: map[string]interface{}{
+		"apiVersion": "networking.istio.io/v1alpha3", "kind": "VirtualService",
+		"metadata": map[string]interface{}{"namespace": ns, "name": AppName},
+		"spec": map[string]interface{}{
+			"hosts":    []interface{}{"*"},
+			"gateways": []interface{}{"nginx-gateway"},
+			"http": []interface{}{map[string]interface{}{"route": []interface{}{
+				map[string]interface{}{"destination": map[string]interface{}{"host": AppName}}}}},
+		},
+	}}
+	return u
 }
 
 // Rollout builds the scenario's Rollout object.
@@ -241,11 +284,22 @@ func (sc *Scenario) Rollout() *rolloutsv1beta1.Rollout {
 		ro.Spec.WorkloadRef = rolloutsv1beta1.ObjectRef{APIVersion: "apps/v1", Kind: "StatefulSet", Name: AppName}
 	}
 	var trs []rolloutsv1beta1.TrafficRoutingRef
-	switch sc.Traffic {
+	traffic := sc.Traffic
+	if sc.TRCR {
+		traffic = ""
+		if ro.Annotations == nil {
+			ro.Annotations = map[string]string{}
+		}
+		ro.Annotations[rolloutsv1alpha1.TrafficRoutingAnnotation] = TRName
+	}
+	switch traffic {
 	case "ingress":
 		trs = []rolloutsv1beta1.TrafficRoutingRef{{Service: AppName, GracePeriodSeconds: sc.Grace, Ingress: &rolloutsv1beta1.IngressTrafficRouting{ClassType: sc.IngressClass, Name: AppName}}}
 	case "gateway":
 		trs = []rolloutsv1beta1.TrafficRoutingRef{{Service: AppName, GracePeriodSeconds: sc.Grace, Gateway: &rolloutsv1beta1.GatewayTrafficRouting{HTTPRouteName: utilpointer.String(AppName)}}}
+	case "custom":
+		trs = []rolloutsv1beta1.TrafficRoutingRef{{Service: AppName, GracePeriodSeconds: sc.Grace,
+			CustomNetworkRefs: []rolloutsv1beta1.ObjectRef{{APIVersion: "networking.istio.io/v1alpha3", Kind: "VirtualService", Name: AppName}}}}
 	}
 	switch sc.Style {
 	case "bluegreen":
